@@ -1570,6 +1570,17 @@ pub fn c03_exempt(fho: &str) -> bool {
     })
 }
 
+/// a limit fault of a transaction configured to be ignored: the hypothesis `NoIgnore` of the
+/// C03 bound theorems does not hold
+pub fn c03_ignores(fho: &str) -> bool {
+    fho.split(';').any(|p| {
+        let mut it = p.split(':');
+        let c = it.next().unwrap_or("");
+        let a = it.next().unwrap_or("");
+        matches!(c, "1" | "7" | "8") && a == "i"
+    })
+}
+
 impl RecvCase {
     /// the shared clock was advanced by an op recorded for the other party
     pub fn note_adv(&mut self, ms: u64) {
@@ -1599,9 +1610,23 @@ impl RecvCase {
         let t0 = self.now_ms;
         let bound_ms = 4 * (self.cfg.max as u64 + 1) * (self.cfg.ti.max(1) + self.cfg.ta.max(1) + self.cfg.tn.max(1)) as u64 * 1000 + 4 * self.cfg.delay_ms + 5000;
         let mut steps = 0u32;
+        // the bound of theorems C03_recv_bounded_wakeups / C03_recv_bounded_time, evaluated on the real
+        // transaction: phi <= 10 + 8 x limit + delayed checks pending, one inactivity period per unit
+        let pending = {
+            let snap = self.t.verif_snapshot();
+            let d = snap.split("delayed=[").nth(1).and_then(|r| r.split(']').next()).unwrap_or("");
+            if d.is_empty() { 0 } else { d.split(',').count() as u64 }
+        };
+        let phi_bound = 10 + 8 * self.cfg.max as u64 + pending;
+        let theorem_applies = !c03_ignores(&self.cfg.fho) && self.cfg.ti > 0 && self.cfg.ta > 0 && self.cfg.tn > 0;
+        let mut wakes = 0u64;
         while verif::recv_state(&self.t) != TransactionState::Terminated && !self.dead {
             if verif::recv_state(&self.t) == TransactionState::Suspended {
                 return; // suspended by the user or a handler: allowed to wait
+            }
+            if theorem_applies && (wakes > phi_bound || self.now_ms - t0 > phi_bound * self.cfg.ti as u64 * 1000 + wakes) {
+                self.bad(out, viol, "C03", "within_potential", format!("{} timer wake-ups / {} ms after the peer fell silent; the theorem's bound is {} wake-ups of at most {} s each", wakes, self.now_ms - t0, phi_bound, self.cfg.ti));
+                return;
             }
             steps += 1;
             if steps > 5000 || self.now_ms - t0 > bound_ms {
@@ -1623,6 +1648,7 @@ impl RecvCase {
             if ms > 0 {
                 self.op(out, &format!("recv adv {}", ms), viol).await;
             }
+            wakes += 1;
             self.op(out, "recv timeout", viol).await;
         }
     }
@@ -1653,8 +1679,17 @@ impl SendCase {
         let t0 = self.now_ms;
         let bound_ms = 4 * (self.cfg.max as u64 + 1) * (self.cfg.ti.max(1) + self.cfg.ta.max(1)) as u64 * 1000 + 5000;
         let mut steps = 0u32;
+        // the bound of theorem C03_send_bounded_time on the real transaction: tau <= 2 + 4 x limit
+        // wake-ups of at most max(ACK timeout, inactivity timeout) each
+        let tau_bound = 2 + 4 * self.cfg.max as u64;
+        let theorem_applies = !c03_ignores(&self.cfg.fho) && self.cfg.ti > 0 && self.cfg.ta > 0;
+        let mut wakes = 0u64;
         while verif::send_state(&self.t) != TransactionState::Terminated && !self.dead {
             if verif::send_state(&self.t) == TransactionState::Suspended {
+                return;
+            }
+            if theorem_applies && (wakes > tau_bound || self.now_ms - t0 > tau_bound * self.cfg.ti.max(self.cfg.ta) as u64 * 1000 + wakes) {
+                self.bad(out, viol, "C03", "within_potential", format!("{} timer wake-ups / {} ms after the peer fell silent; the theorem's bound is {} wake-ups of at most {} s each", wakes, self.now_ms - t0, tau_bound, self.cfg.ti.max(self.cfg.ta)));
                 return;
             }
             steps += 1;
@@ -1677,6 +1712,7 @@ impl SendCase {
             if ms > 0 {
                 self.op(out, &format!("send adv {}", ms), viol).await;
             }
+            wakes += 1;
             self.op(out, "send timeout", viol).await;
         }
     }
